@@ -366,6 +366,20 @@ func (c *Ctx) trackerRules(rm map[string]string) {
 				ok := false
 				for _, cd := range CondsAt(op.In.Block()) {
 					cd = unwrapNot(cd)
+					// the table holds no nil entries (every insertion stores a fresh record): "m[k] == nil" is "not found"
+					if bo, isB := cd.V.(*ssa.BinOp); isB && (bo.Op == token.EQL || bo.Op == token.NEQ) && (bo.Op == token.EQL) == cd.True {
+						var other ssa.Value
+						if isNilConst(bo.Y) {
+							other = bo.X
+						} else if isNilConst(bo.X) {
+							other = bo.Y
+						}
+						if lk, isL := other.(*ssa.Lookup); isL && !lk.CommaOk {
+							if fv, _ := mapFieldOf(lk.X); fv == op.Field && lk.Index == op.Key {
+								ok = true
+							}
+						}
+					}
 					ex, isE := cd.V.(*ssa.Extract)
 					if !isE || ex.Index != 1 || cd.True {
 						continue
@@ -743,8 +757,30 @@ func (c *Ctx) gcRule(id string, m *trackerModel, nickDel *ssa.Function) {
 			ok, why := false, "no emptiness test of the nick's channel set leading to its deletion"
 			for x := range ReachFrom(cs, false, nil) {
 				call, isC := x.(*ssa.Call)
-				if !isC || call.Call.StaticCallee() != m.delNickFn || call.Call.Args[1] != nk {
+				if !isC || len(call.Call.Args) < 2 || call.Call.Args[1] != nk {
 					continue
+				}
+				if cal := call.Call.StaticCallee(); cal != m.delNickFn {
+					// ... or a wrapper that deletes the nick it is given unless it is the client's own record
+					wraps := false
+					if cal != nil && c.InModuleFn(cal) && cal.Package() == c.State && cal.Blocks != nil && len(cal.Params) == 2 {
+						for _, y := range CallSites(cal) {
+							if y.Common().StaticCallee() == m.delNickFn && len(y.Common().Args) == 2 && y.Common().Args[1] == ssa.Value(cal.Params[1]) {
+								onlyMe := true
+								for _, cd := range CondsAt(y.Block()) {
+									if _, _, okMe := c.meCompare(cd, m.stMe); !okMe {
+										onlyMe = false
+									}
+								}
+								if onlyMe {
+									wraps = true
+								}
+							}
+						}
+					}
+					if !wraps {
+						continue
+					}
 				}
 				for _, cd := range CondsAt(call.Block()) {
 					cd = unwrapNot(cd)
@@ -1782,29 +1818,7 @@ func runC13(c *Ctx) {
 	r.Add("R4", "seed-tracker", posFn(c, est), "(*client.Conn).EnableStateTracking", "the tracker is created for the configured nick", okSeed, "NewTracker(cfg.Me.Nick)")
 
 	// ---- R5 (same construct as C07.R4)
-	seenE := map[*ssa.Function]*connEffects{}
-	var wipe []ssa.Instruction
-	funcInstrs(a.Connect, func(in ssa.Instruction) {
-		if cs, ok := in.(ssa.CallInstruction); ok {
-			if cal := cs.Common().StaticCallee(); cal != nil && c.InModuleFn(cal) && c.connEffectsOf(cal, seenE).wipes {
-				wipe = append(wipe, in)
-			}
-		}
-	})
-	bad := ""
-	reach := ReachFromEntry(a.Connect, func(in ssa.Instruction) bool {
-		for _, w := range wipe {
-			if w == in {
-				return true
-			}
-		}
-		return false
-	})
-	for in := range reach {
-		if rt, ok := in.(*ssa.Return); ok && len(rt.Results) == 1 && isNilConst(retVal(rt, 0)) {
-			bad = c.InstrPos(rt)
-		}
-	}
+	wipe, bad := c.connectWipes()
 	r.Add("R5", "wipe-on-connect", c.Pos(a.Connect.Pos()), c.FuncKey(a.Connect), "channels of a previous connection are not carried over", bad == "" && len(wipe) > 0, "success return without wipe: "+bad)
 }
 
@@ -3472,4 +3486,68 @@ func (c *Ctx) capturedParam(v ssa.Value) bool {
 		}
 	})
 	return found && ok
+}
+
+// connectWipes: the places in the connect routine that wipe the tracker - a
+// call of a module function that does (on its own st != nil guard), or a
+// direct Wipe call guarded by st != nil - and the success return, if any,
+// reachable from entry without passing one of them while tracking is on
+// (edges that imply "there is no tracker" are not followed).
+func (c *Ctx) connectWipes() ([]ssa.Instruction, string) {
+	a := c.A
+	cn := a.Connect
+	seenE := map[*ssa.Function]*connEffects{}
+	var wipe []ssa.Instruction
+	funcInstrs(cn, func(in ssa.Instruction) {
+		cs, ok := in.(ssa.CallInstruction)
+		if !ok {
+			return
+		}
+		if c.isTrackerCall(in) && callOf(in).Method.Name() == "Wipe" {
+			if _, isCall := in.(*ssa.Call); isCall {
+				wipe = append(wipe, in)
+			}
+			return
+		}
+		if cal := cs.Common().StaticCallee(); cal != nil && c.InModuleFn(cal) && c.connEffectsOf(cal, seenE).wipes {
+			wipe = append(wipe, in)
+		}
+	})
+	if len(cn.Blocks) == 0 {
+		return wipe, ""
+	}
+	isWipe := func(in ssa.Instruction) bool {
+		for _, w := range wipe {
+			if w == in {
+				return true
+			}
+		}
+		return false
+	}
+	noTracker := func(from, to *ssa.BasicBlock) bool {
+		cd, ok := edgeCond(from, to)
+		if !ok {
+			return false
+		}
+		cd = unwrapNot(cd)
+		bo, isB := cd.V.(*ssa.BinOp)
+		if !isB || (bo.Op != token.EQL && bo.Op != token.NEQ) {
+			return false
+		}
+		var other ssa.Value
+		if isNilConst(bo.Y) {
+			other = bo.X
+		} else if isNilConst(bo.X) {
+			other = bo.Y
+		}
+		fv, _ := loadedField(other)
+		return fv == a.St && (bo.Op == token.EQL) == cd.True
+	}
+	bad := ""
+	for in := range ReachFromFiltered(cn.Blocks[0].Instrs[0], true, isWipe, noTracker) {
+		if rt, ok := in.(*ssa.Return); ok && len(rt.Results) == 1 && isNilConst(retVal(rt, 0)) {
+			bad = c.InstrPos(rt)
+		}
+	}
+	return wipe, bad
 }
